@@ -78,6 +78,13 @@ CHECKS_UNSORTED = [
      BASE_NOTE + " Pool scheduling is not controlled; only results are compared.", "DESIGN.md 5/C17"),
 ]
 CHECKS = sorted(CHECKS_UNSORTED, key=lambda c: c["property_id"])
+FUZZED = ["C03", "C05", "C06", "C16", "C20"]
+for c in CHECKS:
+    if c["property_id"] in FUZZED:
+        c["engine"] = "hypothesis (+ atheris/libFuzzer in the thorough tier)"
+        c["technique"] += "; thorough tier adds coverage-guided fuzzing (atheris) of the same strategies and oracle"
+        c["level_note"] += " If atheris cannot be imported the coverage-guided part is skipped and reported as inconclusive, never as a violation."
+
 DONE = set(c["property_id"] for c in CHECKS)
 NOT_APPLICABLE = [{"property_id": p, "reason": "check not built yet in this revision (work in progress; PBT applies, see DESIGN.md section 5)"}
                   for p in ALL if p not in DONE]
